@@ -308,7 +308,7 @@ def judge (_id : String) (lines : Array String) : Verdict := Id.run do
   let pB := if barrierCtl then simulate (step { cfg with cap := edgeCap - ctlSlack }) topo.decl kinds cls n 0 else pS
   -- (coverage tag only) a barrier().period().delete(TRUE) node under back-pressure: its own input edge can be full when
   -- its timer fires. It used to deadlock there (periodicBarrier.DeleteGroup -> Stop -> wg.Wait for the timer goroutine
-  -- blocked on that edge; repaired by 4d7f3d1, witness corpus/C07/fixed-periodic-barrier-delete-deadlock.ops); a hang
+  -- blocked on that edge; repaired by 93b2e57, witness corpus/C07/fixed-periodic-barrier-delete-deadlock.ops); a hang
   -- of such a chain is a violation like any other.
   let pbDead := !isFork && (chainT.splitOn ",").any (·.startsWith "pbarrier:") && (cls == .gated || cls == .immediate)
   let canHang := !pS.returned || !pP.returned || !pF.returned
